@@ -5,6 +5,7 @@ from ..core import CaseTimeout as _CaseTimeout
 from .. import netlab, rawpeer, httpref
 from ..core import Result, digest
 from hio.core.http import serving as hserving
+from hio.core.http import httping as hhttping
 
 PID = "C18"
 ENGINE = "http"
@@ -12,7 +13,7 @@ LEVEL = "fault_enumeration"
 RULE = ("Each case runs a real hio http Server on the fake kernel (partial sends, short reads, delivery delay drawn per case) with a "
         "scripted WSGI application and one raw client that sends 1-5 (thorough 7) pipelined requests, the last of which may end the connection (HTTP/1.0 and 1.1; Connection "
         "keep-alive / close / default; GET/POST/PUT with bodies), all at once or spaced. Per request the application script draws a "
-        "status (200/201/404/500/301, and 204/304 without body), a header list (with or without Content-Length, duplicate headers), "
+        "status (200/201/404/500/301, and 204/304 without body; or raises hio's HTTPError before producing anything), a header list (with or without Content-Length, duplicate headers), "
         "1-5 body pieces including empty b'' 'not ready' yields, optionally a generator return value, optionally more bytes than "
         "the declared length. The bytes the client receives are decoded by an independent strict HTTP/1.1 response parser. Oracle: "
         "exactly one response per request up to and including the first non-persistent request, in request order, each with the "
@@ -24,7 +25,7 @@ COMPONENTS = dict(real=["hio.core.http.serving.Server/Responder/Requestant", "hi
                   stub=["kernel sockets (FakeSocket)", "raw pipelining client"], model=["hiosim/httpref.py (independent response parser)"])
 ASSUMPTIONS = ["applications that deliver fewer bytes than they declare, 1xx statuses, bodies on 204/304 and HEAD requests are outside the generated domain",
                "the reference parser honours Transfer-Encoding: chunked on 204/304"]
-PROBES = ["second_response_without_length", "http10_keepalive", "clipped_to_length", "empty_yields", "generator_return_value",
+PROBES = ["app_raised_httperror", "second_response_without_length", "http10_keepalive", "clipped_to_length", "empty_yields", "generator_return_value",
           "mixed_versions_on_connection", "status_204_304"]
 BOUNDS = dict(quick=dict(requests=5, pieces=5), thorough=dict(requests=7, pieces=6))
 TIERS = dict(quick=dict(cases=20000, wall=45.0), thorough=dict(cases=1500000, wall=420.0))
@@ -74,8 +75,19 @@ def gen_case(tape, tier):
             headers += [("X-Req", str(i))]
         if cl is not None:
             headers.append(("Content-Length", str(cl)))
+        httperror = None
+        if tape.flag("app_raises_httperror", 1, 8):
+            # the application (a generator) raises hio's HTTPError before producing anything: the server answers with that
+            # status and the rendered error as a length-delimited text/plain body
+            httperror = dict(status=tape.pick("errstatus", [400, 404, 503]), title="t%d" % i, detail="d%d" % i)
+            ex = hhttping.HTTPError(**httperror)
+            status = "%d %s" % (ex.status, ex.reason)
+            rendered = ex.render()
+            pieces, retval, cl = [bytes(rendered if isinstance(rendered, (bytes, bytearray)) else rendered.encode())], None, None
+            cl = len(pieces[0])
+            headers = [("content-type", "text/plain"), ("content-length", str(cl))]
         reqs.append(dict(i=i, version=version, conn=conn, method=method, body=body, status=status, pieces=pieces, retval=retval,
-                         cl=cl, headers=headers))
+                         cl=cl, headers=headers, httperror=httperror))
         if not persistent(reqs[-1]):
             break      # a well-behaved client sends nothing after a request that ends the connection
     return reqs
@@ -109,6 +121,11 @@ def run_case(tape, tier):
     def app(environ, start_response):
         i = int(environ["PATH_INFO"][2:])
         r = byidx[i]
+        if r["httperror"]:
+            def boom():
+                raise hhttping.HTTPError(**r["httperror"])
+                yield b""
+            return boom()
         start_response(r["status"], list(r["headers"]))
 
         def gen():
@@ -236,6 +253,8 @@ def run_case(tape, tier):
         else:
             res.violate(problem[0], problem[1])
     # probes
+    if any(r["httperror"] for r in expected):
+        res.probes["app_raised_httperror"] += 1
     if len(expected) >= 2 and any(r["cl"] is None for r in expected[1:]):
         res.probes["second_response_without_length"] += 1
     if any(r["version"] == "1.0" and persistent(r) for r in expected):
